@@ -60,8 +60,9 @@ PairOk(p, o) ==
         /\ Valid(SynCtx(p[1])[n]) = Valid(SynCtx(p[2])[n])
         /\ Res(<<SynCtx(p[1])[n], <<o, Plain>> >>) = Res(<<SynCtx(p[2])[n], <<o, Plain>> >>)
   \* three entries: the spelling under one exception, the second spelling under ANOTHER exception, an entry that sorts last
-  /\ Res(<<p[2] \o " WITH " \o Exc2, <<p[1] \o " WITH " \o Exc1, p[2] \o " WITH " \o Exc2, Last>> >>)
-       = Res(<<p[2] \o " WITH " \o Exc2, <<p[2] \o " WITH " \o Exc1, p[2] \o " WITH " \o Exc2, Last>> >>)
+  /\ \A ex \in {<<Exc1, Exc2>>, <<Exc2, Exc1>>} :     \* (either exception may be the one that sorts second)
+        Res(<<p[2] \o " WITH " \o ex[2], <<p[1] \o " WITH " \o ex[1], p[2] \o " WITH " \o ex[2], Last>> >>)
+          = Res(<<p[2] \o " WITH " \o ex[2], <<p[2] \o " WITH " \o ex[1], p[2] \o " WITH " \o ex[2], Last>> >>)
   \* two-entry allowed lists holding the spelling next to the SAME id under an exception, in both orders
   /\ \A i \in 1..2 :
         /\ Res(<<X \o " WITH " \o Exc1, <<p[1], X \o " WITH " \o Exc1>> >>) = Res(<<X \o " WITH " \o Exc1, <<p[2], X \o " WITH " \o Exc1>> >>)
@@ -87,9 +88,10 @@ EmitPair(p, o) ==
        LET c1 == <<SynCtx(p[1])[n], <<o, Plain>> >>
            c2 == <<SynCtx(p[2])[n], <<o, Plain>> >>
        IN PrintT(ToJson([k |-> "same", calls |-> <<CallJ(c1), CallJ(c2)>>, exp |-> <<ResJ(c1), ResJ(c2)>>, posdep |-> PosDep(c1, c2)]))
-  /\ LET c1 == <<p[2] \o " WITH " \o Exc2, <<p[1] \o " WITH " \o Exc1, p[2] \o " WITH " \o Exc2, Last>> >>
-         c2 == <<p[2] \o " WITH " \o Exc2, <<p[2] \o " WITH " \o Exc1, p[2] \o " WITH " \o Exc2, Last>> >>
-     IN PrintT(ToJson([k |-> "same", calls |-> <<CallJ(c1), CallJ(c2)>>, exp |-> <<ResJ(c1), ResJ(c2)>>, posdep |-> PosDep(c1, c2)]))
+  /\ \A ex \in {<<Exc1, Exc2>>, <<Exc2, Exc1>>} :
+       LET c1 == <<p[2] \o " WITH " \o ex[2], <<p[1] \o " WITH " \o ex[1], p[2] \o " WITH " \o ex[2], Last>> >>
+           c2 == <<p[2] \o " WITH " \o ex[2], <<p[2] \o " WITH " \o ex[1], p[2] \o " WITH " \o ex[2], Last>> >>
+       IN PrintT(ToJson([k |-> "same", calls |-> <<CallJ(c1), CallJ(c2)>>, exp |-> <<ResJ(c1), ResJ(c2)>>, posdep |-> PosDep(c1, c2)]))
   /\ LET xe == X \o " WITH " \o Exc1
          c1 == <<xe, <<p[1], xe>> >>   c2 == <<xe, <<p[2], xe>> >>
          d1 == <<p[1], <<xe, p[1]>> >> d2 == <<p[1], <<xe, p[2]>> >>
